@@ -17,33 +17,44 @@ set_option mvcgen.warning false
 
 /-- errors that may leave `pvl.loads`: `LexerError`, `ParseError`; `fuel` is the model's marker for
     non-termination -/
-def Hard (e : PErr) : Prop := e.isLexer = true ∨ (∃ t, e = .parse t) ∨ e = .fuel
+def Hard (c : PCfg) (e : PErr) : Prop :=
+  e.isLexer = true ∨ ((∃ t, e = .parse t) ∧ c.tail = .eof) ∨ e = .fuel
 
-/-- the hard errors of the value-level functions: their `ParseError`s carry no token -/
-def Hard0 (e : PErr) : Prop := e.isLexer = true ∨ e = .parse none ∨ e = .fuel
+/-- the hard errors of the value-level functions: their `ParseError`s carry no token.  A `ParseError`
+    always means that the tokens ran out *normally* (the lexer reached the end of the text). -/
+def Hard0 (c : PCfg) (e : PErr) : Prop :=
+  e.isLexer = true ∨ (e = .parse none ∧ c.tail = .eof) ∨ e = .fuel
 
-theorem Hard0.hard {e} (h : Hard0 e) : Hard e := by
+theorem Hard0.hard {c e} (h : Hard0 c e) : Hard c e := by
   rcases h with h | h | h
   · exact Or.inl h
-  · exact Or.inr (Or.inl ⟨none, h⟩)
+  · exact Or.inr (Or.inl ⟨⟨none, h.1⟩, h.2⟩)
   · exact Or.inr (Or.inr h)
 
 /-- the generator invariant: a pushed-back token implies a live generator that has lexed something -/
-def Inv (s : PSt) : Prop := s.gen.pushed.isSome = true → (s.gen.last.isSome = true ∧ s.gen.dead = false)
+def Inv (c : PCfg) (s : PSt) : Prop :=
+  (∀ t, s.gen.pushed = some t → s.gen.last = some t) ∧
+  (s.gen.dead = true → (s.gen.pushed = none ∧ c.tail = .eof))
+
+/-- just received the token `t` -/
+def GotT (t : Token) (s : PSt) : Prop := s.gen.dead = false ∧ s.gen.pushed = none ∧ s.gen.last = some t
 
 /-- just received a token -/
-def Got (s : PSt) : Prop := s.gen.dead = false ∧ s.gen.pushed = none ∧ s.gen.last.isSome = true
+def Got (s : PSt) : Prop := ∃ t, GotT t s
 
-/-- a token is waiting in the push-back slot -/
-def Pend (s : PSt) : Prop := s.gen.dead = false ∧ s.gen.pushed.isSome = true ∧ s.gen.last.isSome = true
+/-- a token is waiting in the push-back slot (the one most recently lexed) -/
+def Pend (s : PSt) : Prop := s.gen.dead = false ∧ ∃ t, s.gen.pushed = some t ∧ s.gen.last = some t
 
 /-- the next `next()` will not run the lexer: it returns the pushed token or raises StopIteration -/
-def Rdy (s : PSt) : Prop := (s.gen.dead = true ∧ s.gen.pushed = none) ∨ Pend s
+def Rdy (c : PCfg) (s : PSt) : Prop := (s.gen.dead = true ∧ s.gen.pushed = none ∧ c.tail = .eof) ∨ Pend s
 
-theorem Got.inv {s} (h : Got s) : Inv s := by simp_all [Got, Inv]
-theorem Pend.inv {s} (h : Pend s) : Inv s := by simp_all [Pend, Inv]
-theorem Pend.rdy {s} (h : Pend s) : Rdy s := Or.inr h
-theorem Rdy.inv {s} (h : Rdy s) : Inv s := by
+theorem GotT.got {t s} (h : GotT t s) : Got s := ⟨t, h⟩
+theorem Got.inv {c s} (h : Got s) : Inv c s := by
+  obtain ⟨t, h⟩ := h; simp_all [GotT, Inv]
+theorem Pend.inv {c s} (h : Pend s) : Inv c s := by
+  obtain ⟨hd, t, hp, hl⟩ := h; simp_all [Inv]
+theorem Pend.rdy {c s} (h : Pend s) : Rdy c s := Or.inr h
+theorem Rdy.inv {c s} (h : Rdy c s) : Inv c s := by
   rcases h with h | h
   · simp_all [Inv]
   · exact h.inv
@@ -51,37 +62,39 @@ theorem Rdy.inv {s} (h : Rdy s) : Inv s := by
 macro "vc_close" : tactic => `(tactic|
   all_goals (first
     | assumption
-    | (intros; simp_all [Hard, Hard0, Inv, Got, Pend, Rdy, PErr.isLexer, PErr.isValueError]; done)
-    | (simp_all (config := {zetaDelta := true}) [Hard, Hard0, Inv, Got, Pend, Rdy, PErr.isLexer, PErr.isValueError]; done)
-    | grind [Hard, Hard0, Inv, Got, Pend, Rdy, PErr.isLexer, PErr.isValueError]))
+    | (intros; simp_all [Hard, Hard0, Inv, Got, GotT, Pend, Rdy, PErr.isLexer, PErr.isValueError]; done)
+    | (simp_all (config := {zetaDelta := true}) [Hard, Hard0, Inv, Got, GotT, Pend, Rdy, PErr.isLexer, PErr.isValueError]; done)
+    | grind [Hard, Hard0, Inv, Got, GotT, Pend, Rdy, PErr.isLexer, PErr.isValueError]))
 
 /-! ### the generator protocol -/
 
 /-- `next(tokens)`: on success a token was just received; it can only fail with StopIteration (and the
     generator is finished) or with the character-set LexerError. -/
-theorem next_spec :
-    ⦃fun s => ⌜Inv s⌝⦄ (next : PM Token)
-    ⦃post⟨fun _ s => ⌜Got s⌝,
-          fun e s => ⌜(e = .stop ∧ s.gen.dead = true ∧ s.gen.pushed = none) ∨ e.isLexer = true⌝⟩⦄ := by
+theorem next_spec (c : PCfg) :
+    ⦃fun s => ⌜Inv c s⌝⦄ (next c : PM Token)
+    ⦃post⟨fun r s => ⌜GotT r s⌝,
+          fun e s => ⌜(e = .stop ∧ s.gen.dead = true ∧ s.gen.pushed = none ∧ c.tail = .eof) ∨
+                      (e.isLexer = true ∧ c.tail ≠ .eof)⌝⟩⦄ := by
   mvcgen [next]
   vc_close
 
 /-- when a token is waiting (or the generator is finished) `next` cannot raise a LexerError -/
-theorem next_rdy_spec :
-    ⦃fun s => ⌜Rdy s⌝⦄ (next : PM Token)
-    ⦃post⟨fun _ s => ⌜Got s⌝, fun e s => ⌜e = .stop ∧ s.gen.dead = true ∧ s.gen.pushed = none⌝⟩⦄ := by
+theorem next_rdy_spec (c : PCfg) :
+    ⦃fun s => ⌜Rdy c s⌝⦄ (next c : PM Token)
+    ⦃post⟨fun r s => ⌜GotT r s⌝,
+          fun e s => ⌜e = .stop ∧ s.gen.dead = true ∧ s.gen.pushed = none ∧ c.tail = .eof⌝⟩⦄ := by
   mvcgen [next]
   vc_close
 
 /-- with a token waiting, `next` returns it and cannot fail -/
-theorem next_pend_spec :
-    ⦃fun s => ⌜Pend s⌝⦄ (next : PM Token) ⦃post⟨fun _ s => ⌜Got s⌝, fun _ _ => ⌜False⌝⟩⦄ := by
+theorem next_pend_spec (c : PCfg) :
+    ⦃fun s => ⌜Pend s⌝⦄ (next c : PM Token) ⦃post⟨fun r s => ⌜GotT r s⌝, fun _ _ => ⌜False⌝⟩⦄ := by
   mvcgen [next]
   vc_close
 
 /-- `tokens.send(t)` right after a token was received never fails and leaves it waiting -/
 theorem send_spec (t : Token) :
-    ⦃fun s => ⌜Got s⌝⦄ (send t : PM Unit) ⦃post⟨fun _ s => ⌜Pend s⌝, fun _ _ => ⌜False⌝⟩⦄ := by
+    ⦃fun s => ⌜GotT t s⌝⦄ (send t : PM Unit) ⦃post⟨fun _ s => ⌜Pend s⌝, fun _ _ => ⌜False⌝⟩⦄ := by
   mvcgen [send]
   vc_close
 
@@ -111,16 +124,16 @@ theorem emptyValue_Pend_spec (c : PCfg) (pos : Int) :
   emptyValue_spec c pos Pend (by intro s l h; exact h)
 
 theorem emptyValue_Inv_spec (c : PCfg) (pos : Int) :
-    ⦃fun s => ⌜Inv s⌝⦄ (emptyValue c pos : PM Val) ⦃post⟨fun _ s => ⌜Inv s⌝, fun _ _ => ⌜False⌝⟩⦄ :=
-  emptyValue_spec c pos Inv (by intro s l h; exact h)
+    ⦃fun s => ⌜Inv c s⌝⦄ (emptyValue c pos : PM Val) ⦃post⟨fun _ s => ⌜Inv c s⌝, fun _ _ => ⌜False⌝⟩⦄ :=
+  emptyValue_spec c pos (Inv c) (by intro s l h; exact h)
 
 /-! ### white space, delimiters, `=` -/
 
 /-- `parse_WSC_until`: `true` = the wanted token was just consumed; `false` = a token was pushed back or
     the tokens ran out.  It raises nothing but the LexerError of the lexer (and the fuel marker). -/
 theorem wscUntil_spec (c : PCfg) (tok : Option Str) (fuel : Nat) :
-    ⦃fun s => ⌜Inv s⌝⦄ (wscUntil c tok fuel : PM Bool)
-    ⦃post⟨fun b s => ⌜(b = true → Got s ∧ tok.isSome = true) ∧ (b = false → Rdy s)⌝,
+    ⦃fun s => ⌜Inv c s⌝⦄ (wscUntil c tok fuel : PM Bool)
+    ⦃post⟨fun b s => ⌜(b = true → Got s ∧ tok.isSome = true) ∧ (b = false → Rdy c s)⌝,
           fun e _ => ⌜e.isLexer = true ∨ e = .fuel⌝⟩⦄ := by
   induction fuel with
   | zero => unfold wscUntil; mvcgen; vc_close
@@ -130,8 +143,8 @@ theorem wscUntil_spec (c : PCfg) (tok : Option Str) (fuel : Nat) :
     vc_close
 
 theorem stmtDelim_spec (c : PCfg) (fuel : Nat) :
-    ⦃fun s => ⌜Inv s⌝⦄ (stmtDelim c fuel : PM Bool)
-    ⦃post⟨fun b s => ⌜(b = true → Got s) ∧ (b = false → Rdy s)⌝,
+    ⦃fun s => ⌜Inv c s⌝⦄ (stmtDelim c fuel : PM Bool)
+    ⦃post⟨fun b s => ⌜(b = true → Got s) ∧ (b = false → Rdy c s)⌝,
           fun e _ => ⌜e.isLexer = true ∨ e = .fuel⌝⟩⦄ := by
   induction fuel with
   | zero => unfold stmtDelim; mvcgen; vc_close
@@ -142,9 +155,9 @@ theorem stmtDelim_spec (c : PCfg) (fuel : Nat) :
 
 /-- `parse_around_equals`: a soft `ValueError` means a token other than `=` was found and pushed back -/
 theorem aroundEquals_spec (c : PCfg) (fuel : Nat) :
-    ⦃fun s => ⌜Inv s⌝⦄ (aroundEquals c fuel : PM Unit)
-    ⦃post⟨fun _ s => ⌜Rdy s⌝,
-          fun e s => ⌜e.isLexer = true ∨ e = .fuel ∨ (e = .parse none ∧ Inv s) ∨ (e = .value ∧ Pend s)⌝⟩⦄ := by
+    ⦃fun s => ⌜Inv c s⌝⦄ (aroundEquals c fuel : PM Unit)
+    ⦃post⟨fun _ s => ⌜Rdy c s⌝,
+          fun e s => ⌜e.isLexer = true ∨ e = .fuel ∨ (e = .parse none ∧ Inv c s ∧ c.tail = .eof) ∨ (e = .value ∧ Pend s)⌝⟩⦄ := by
   unfold aroundEquals
   mvcgen [wscUntil_spec, next_spec, send_spec]
   vc_close
@@ -154,15 +167,17 @@ theorem aroundEquals_spec (c : PCfg) (fuel : Nat) :
 /-- a live generator that has lexed something: `tokens.throw` gives a LexerError -/
 def Live (s : PSt) : Prop := s.gen.dead = false ∧ s.gen.last.isSome = true
 
-theorem Pend.live {s} (h : Pend s) : Live s := ⟨h.1, h.2.2⟩
-theorem Got.live {s} (h : Got s) : Live s := ⟨h.1, h.2.2⟩
+theorem Pend.live {s} (h : Pend s) : Live s := by
+  obtain ⟨hd, t, hp, hl⟩ := h; exact ⟨hd, by simp [hl]⟩
+theorem Got.live {s} (h : Got s) : Live s := by
+  obtain ⟨t, hd, hp, hl⟩ := h; exact ⟨hd, by simp [hl]⟩
 
 macro "vc_close2" : tactic => `(tactic|
   all_goals (first
     | assumption
-    | (intros; simp_all [Hard, Hard0, Inv, Got, Pend, Rdy, Live, PErr.isLexer, PErr.isValueError]; done)
-    | (simp_all (config := {zetaDelta := true}) [Hard, Hard0, Inv, Got, Pend, Rdy, Live, PErr.isLexer, PErr.isValueError]; done)
-    | grind [Hard, Hard0, Inv, Got, Pend, Rdy, Live, PErr.isLexer, PErr.isValueError]))
+    | (intros; simp_all [Hard, Hard0, Inv, Got, GotT, Pend, Rdy, Live, PErr.isLexer, PErr.isValueError]; done)
+    | (simp_all (config := {zetaDelta := true}) [Hard, Hard0, Inv, Got, GotT, Pend, Rdy, Live, PErr.isLexer, PErr.isValueError]; done)
+    | grind [Hard, Hard0, Inv, Got, GotT, Pend, Rdy, Live, PErr.isLexer, PErr.isValueError]))
 
 theorem throwIn_Live_spec {α} :
     ⦃fun s => ⌜Live s⌝⦄ (throwIn : PM α)
@@ -172,9 +187,9 @@ theorem throwIn_Live_spec {α} :
 
 /-- `parse_units`: a soft failure (no units expression follows) leaves a consistent generator -/
 theorem units_spec (c : PCfg) (v : Val) :
-    ⦃fun s => ⌜Inv s⌝⦄ (units c v : PM Val)
-    ⦃post⟨fun _ s => ⌜Inv s⌝,
-          fun e s => ⌜e.isLexer = true ∨ ((e = .value ∨ e = .stop) ∧ Inv s)⌝⟩⦄ := by
+    ⦃fun s => ⌜Inv c s⌝⦄ (units c v : PM Val)
+    ⦃post⟨fun _ s => ⌜Inv c s⌝,
+          fun e s => ⌜e.isLexer = true ∨ ((e = .value ∨ e = .stop) ∧ Inv c s)⌝⟩⦄ := by
   unfold units
   mvcgen [next_spec, send_spec, throwIn_Live_spec]
   vc_close2
@@ -182,23 +197,24 @@ theorem units_spec (c : PCfg) (v : Val) :
 /-- `parse_value_post_hook`: its soft failure leaves a live generator -/
 theorem valueHook_spec (c : PCfg) :
     ⦃fun s => ⌜Pend s⌝⦄ (valueHook c : PM Val)
-    ⦃post⟨fun _ s => ⌜Inv s⌝, fun e s => ⌜e = .value ∧ Live s⌝⟩⦄ := by
+    ⦃post⟨fun _ s => ⌜Inv c s⌝, fun e s => ⌜e = .value ∧ Live s⌝⟩⦄ := by
   unfold valueHook
   mvcgen [next_pend_spec, send_spec, emptyValue_Pend_spec]
   vc_close2
 
 /-- the five mutually recursive value functions, specified together at one fuel level -/
 def ValueSpecs (c : PCfg) (fuel : Nat) : Prop :=
-  (⦃fun s => ⌜Rdy s⌝⦄ (value c fuel : PM Val)
-    ⦃post⟨fun _ s => ⌜Inv s⌝, fun e s => ⌜Hard0 e ∨ (e = .stop ∧ Inv s)⌝⟩⦄) ∧
+  (⦃fun s => ⌜Rdy c s⌝⦄ (value c fuel : PM Val)
+    ⦃post⟨fun _ s => ⌜Inv c s⌝, fun e s => ⌜Hard0 c e ∨ (e = .stop ∧ s.gen.dead = true ∧ s.gen.pushed = none ∧ c.tail = .eof)⌝⟩⦄) ∧
   (∀ delims, ⦃fun s => ⌜Pend s⌝⦄ (setSeq c delims fuel : PM (List Val))
-    ⦃post⟨fun _ s => ⌜Got s⌝, fun e s => ⌜Hard0 e ∨ (e = .value ∧ Pend s)⌝⟩⦄) ∧
-  (∀ delims acc, ⦃fun s => ⌜Inv s⌝⦄ (setSeqLoop c delims acc fuel : PM (Option (List Val)))
-    ⦃post⟨fun r s => ⌜r.isSome = true → Got s⌝, fun e _ => ⌜Hard0 e ∨ e = .stop⌝⟩⦄) ∧
+    ⦃post⟨fun _ s => ⌜Got s⌝, fun e s => ⌜Hard0 c e ∨ (e = .value ∧ Pend s)⌝⟩⦄) ∧
+  (∀ delims acc, ⦃fun s => ⌜Inv c s⌝⦄ (setSeqLoop c delims acc fuel : PM (Option (List Val)))
+    ⦃post⟨fun r s => ⌜(r.isSome = true → Got s) ∧ (r = none → c.tail = .eof)⌝,
+          fun e _ => ⌜Hard0 c e ∨ (e = .stop ∧ c.tail = .eof)⌝⟩⦄) ∧
   (⦃fun s => ⌜Pend s⌝⦄ (pset c fuel : PM Val)
-    ⦃post⟨fun _ s => ⌜Inv s⌝, fun e s => ⌜Hard0 e ∨ (e = .value ∧ Pend s)⌝⟩⦄) ∧
+    ⦃post⟨fun _ s => ⌜Inv c s⌝, fun e s => ⌜Hard0 c e ∨ (e = .value ∧ Pend s)⌝⟩⦄) ∧
   (⦃fun s => ⌜Pend s⌝⦄ (pseq c fuel : PM Val)
-    ⦃post⟨fun _ s => ⌜Inv s⌝, fun e s => ⌜Hard0 e ∨ (e = .value ∧ Pend s)⌝⟩⦄)
+    ⦃post⟨fun _ s => ⌜Inv c s⌝, fun e s => ⌜Hard0 c e ∨ (e = .value ∧ Pend s)⌝⟩⦄)
 
 theorem valueSpecs_zero (c : PCfg) : ValueSpecs c 0 := by
   refine ⟨?_, ?_, ?_, ?_, ?_⟩
@@ -239,7 +255,8 @@ theorem valueSpecs (c : PCfg) (fuel : Nat) : ValueSpecs c fuel := by
 /-- `parse_value` never fails softly: it raises a LexerError, a ParseError (without token), or
     StopIteration when the tokens had run out before it started. -/
 theorem value_spec (c : PCfg) (fuel : Nat) :
-    ⦃fun s => ⌜Rdy s⌝⦄ (value c fuel : PM Val)
-    ⦃post⟨fun _ s => ⌜Inv s⌝, fun e s => ⌜Hard0 e ∨ (e = .stop ∧ Inv s)⌝⟩⦄ := (valueSpecs c fuel).1
+    ⦃fun s => ⌜Rdy c s⌝⦄ (value c fuel : PM Val)
+    ⦃post⟨fun _ s => ⌜Inv c s⌝, fun e s => ⌜Hard0 c e ∨ (e = .stop ∧ s.gen.dead = true ∧ s.gen.pushed = none ∧ c.tail = .eof)⌝⟩⦄ :=
+  (valueSpecs c fuel).1
 
 end Pvl.P
